@@ -257,12 +257,12 @@ def timers(cx):
     for sp, s in cx.prog.calls_out[tk.key]:
         if s.kind != "call":
             continue
-        if sp.endswith("tick_heartbeat"):
+        if sp == cx.sfx("Raft::tick_heartbeat"):
             okh = g.guarded(s.at, lambda lits: any(l[0] == "in" and is_f(l[1], STATE) and l[2] == frozenset(["Leader"]) for l in lits))[0]
         if sp.endswith("tick_election"):
             oke = g.guarded(s.at, lambda lits: any(l[0] == "in" and is_f(l[1], STATE) and "Leader" not in l[2] for l in lits))[0]
     # and every role reaches one of them
-    tb = call_blocks(tk, "tick_heartbeat") | call_blocks(tk, "tick_election")
+    tb = call_blocks(tk, cx.sfx("Raft::tick_heartbeat")) | call_blocks(tk, "tick_election")
     rets = [bi for bi in sorted(cx.prog.A(tk).reach) if tk.body.blocks[bi]["term"]["k"] == "return"]
     allr = all(g.dominated_by_block((rb, "term"), lambda b: b in tb) for rb in rets)
     cx.check(okh and oke and allr, "tick:dispatch", "tick(): leaders run the heartbeat tick, every other role the election tick")
@@ -279,7 +279,7 @@ def uncommitted(cx):
     fa = [lits for lits, v, _ in rets if v == ("bool", False)]
     def has(lits, p):
         return any(p(l) for l in lits)
-    nolimit = lambda l: l[0] == "is" and l[2] is True and l[1][0] == "call" and l[1][1].endswith("is_no_limit")
+    nolimit = lambda l: l[0] == "is" and l[2] is True and l[1][0] == "call" and l[1][1].startswith("raft::raft::UncommittedState::")
     size0 = lambda l: l[0] == "in" and l[2] == frozenset([0]) and l[1][0] in ("call", "local", "phi") and not is_f(l[1], "UncommittedState.uncommitted_size")
     unc0 = lambda l: l[0] == "in" and l[2] == frozenset([0]) and is_f(l[1], "UncommittedState.uncommitted_size")
     fits = lambda l: l[0] == "is" and l[2] is False and l[1][0] == "bin" and l[1][1] == "Lt" and is_f(l[1][2], "UncommittedState.max_uncommitted_size")
@@ -300,7 +300,7 @@ def uncommitted(cx):
         gg = cx.pg(lf)
         app = [c for c in cx.prog.call_sites_of("RaftLog::append") if c.fn is lf]
         def admitted(l):
-            return l[0] == "is" and l[2] is True and l[1][0] == "call" and l[1][1].endswith("maybe_increase_uncommitted_size")
+            return l[0] == "is" and l[2] is True and l[1][0] == "call" and (l[1][1] == cx.sfx("UncommittedState::maybe_increase_uncommitted_size") or cx.sfx("UncommittedState::maybe_increase_uncommitted_size") in cx.prog.reachable_fns([l[1][1]]))
         for c in app:
             require(cx, c, cx.site_key(c, "admitted"), "the leader appends proposals only after the uncommitted-size admission succeeded", admitted, kill=False)
     bl = [s for s in cx.prog.writes.get("UncommittedState.uncommitted_size", []) if "stmt" in s.data and write_value(cx, s) == ("int", 0) and any(x.fn is s.fn for x in cx.prog.writes.get(STATE, []))]
